@@ -234,7 +234,7 @@ def _bond_labels(m):
 
 
 def _self_match(m):
-    if len(m) > 9:
+    if len(m) > 9 or m.connected_components_count > 2:
         return -1   # bounded: the pure-Python matcher is exponential on many symmetric fragments
     c = 0
     for _ in m.get_mapping(m, automorphism_filter=False):
